@@ -250,6 +250,29 @@ def directed(default_params):
                       {"op": "rename.sc", "slot": 0, "route": route, "keep": True},
                       {"op": "rename.copy", "slot": 0, "route": route, "how": "gen"}]
     out.append(("nested-input", P, steps))
+    # bookkeeping steps of the container before the renaming, on containers derived from it
+    steps = []
+    books = [
+        ([{"pref": [1, 1], "atoms": [["ast", "f", ["j"], ["k"], 0], ["amp", "Y", ["a"], ["k"], 0]]}],
+         ["j", "a"]),
+        ([{"pref": [1, 1], "atoms": [["ast", "f", ["k"], ["l"], 0],
+                                     ["amp", "t1", ["a", "b"], ["j", "l"], 0]]},
+          {"pref": [-1, 2], "atoms": [["ast", "f", ["c"], ["b"], 0],
+                                      ["amp", "t1", ["a", "c"], ["j", "k"], 0]]}],
+         ["j", "k", "a", "b"]),
+        ([{"pref": [1, 2], "atoms": [["ast", "V", ["j", "k"], ["b", "c"], 0],
+                                     ["denom", [["b", 1], ["c", 1], ["j", -1], ["k", -1]], 1],
+                                     ["amp", "Y", ["b"], ["j"], 0], ["nst", "w", ["l", "l"]]]}],
+         ["k", "c"]),
+    ]
+    for terms, tg in books:
+        steps.append({"op": "build", "slot": 0, "targets": tg, "terms": terms})
+        for pre in ("diag_fock", "block_diag", "symbolic", "rename_tensor", "expand"):
+            for n, derive in enumerate(("copy", "mul", "add", "term", "none")):
+                for route in (6, 0):
+                    steps.append({"op": "rename.after", "slot": 0, "pre": pre, "derive": derive,
+                                  "how": ("sc", "gen")[(n + route) % 2], "route": route})
+    out.append(("after-bookkeeping", P, steps))
     # one request mixing indices with and without spin, the spin at every position
     steps = []
     for names in (["i", "j"], ["a", "b", "c"], ["k3", "l3"], ["p", "i", "a"]):
